@@ -251,7 +251,7 @@ pub fn materialise(t: &Tables, lines: &Value, term: bool, origin: &str, use_earl
     let mut paras: Vec<Vec<(String, String)>> = vec![vec![]];
     for l in lines.as_array().map(|a| a.as_slice()).unwrap_or(&[]) {
         match l["k"].as_str().unwrap_or("") {
-            "F" => paras.last_mut().unwrap().push((t.key(l["key"].as_i64().unwrap()), t.val(l["v"].as_i64().unwrap()))),
+            "F" => paras.last_mut().unwrap().push((t.key(l["key"].as_i64().unwrap()), if l["v"].as_i64() == Some(0) { String::new() } else { t.val(l["v"].as_i64().unwrap()) })),   // (value 0: the empty value)
             "C" => { let last = paras.last_mut().unwrap().last_mut().unwrap(); last.1.push('\n'); last.1.push_str(&t.val(l["v"].as_i64().unwrap())); }
             "B" => paras.push(vec![]),
             _ => {}
